@@ -11,13 +11,13 @@ Local Open Scope N_scope.
 Definition app_op (o : op) : bool :=
   match o with
   | OWrite _ _ | OTruncate _ | OCommitJournal _ | OInvalidateJournal | OWalHeader | OWalTruncate
-  | OCommitWal _ _ | OCheckpoint | ODrop | OImport _ _ _ | OCommitJournalFail _ => true
+  | OCommitWal _ _ | OCheckpoint | ODrop | OImport _ _ _ | OCommitJournalFail _ | OWriteJ _ _ => true
   | OOpen | OSetWriteable _ | OReceive _ | ORetention _ _ _ => false
   end.
 (* those among them that would change the replicated database if they went through *)
 Definition mutating (o : op) : bool :=
   match o with
-  | OWrite _ _ | OCommitJournal _ | OCommitWal _ _ | ODrop | OImport _ _ _ => true
+  | OWrite _ _ | OWriteJ _ _ | OCommitJournal _ | OCommitWal _ _ | ODrop | OImport _ _ _ => true
   | _ => false
   end.
 
